@@ -1,0 +1,9 @@
+//go:build !(verif && (verif_all || verif_c08))
+// +build !verif !verif_all,!verif_c08
+
+package streams
+
+// yield marks the atomic operations of the allocator for the verification
+// harness (build tags `verif` + `verif_c08`). Without the tags it is an empty,
+// inlinable function.
+func yield(int) {}
